@@ -2,12 +2,13 @@
 # usage: tools/confirm_mutant.sh <ID> <mK> <worktree>   -- confirm a seeded change in a scratch worktree:
 #   compiles, existing suite passes, demo fails with the change and passes without it.
 id=$1; mk=$2; wt=$3
-dir=/tmp/mut/$id/$mk
+dir=${MUTROOT:-/tmp/mut}/$id/$mk
 patch=$dir/patch.diff; [ -f $dir/patch.rebased.diff ] && patch=$dir/patch.rebased.diff
 extra=""
 case "$id/$mk" in
   C10/m1) extra="--features no-serde-warnings";;
   C10/m3) extra="--no-default-features";;
+  C04/m3) [ "${MUTROOT:-}" = /tmp/mut2 ] && extra="--features format";;
 esac
 cd $wt || exit 2
 git checkout -q -- . ; git clean -fdq -e target
